@@ -251,7 +251,8 @@ func runWriter(c *rp.Ctx, i, v int, cs *writerCase) rp.Result {
 	if total < 300000 && (v+c.Seed)%2 == 0 {
 		b.In.Seg = transport.Random(int64(c.Seed)*7919+int64(v), 1500)
 	}
-	rbs := []int{128, 256, 1024, 4096}[(v/2+c.Seed)%4]
+	// the receiving endpoint's read buffer: any size is the application's right, also one below the largest control payload
+	rbs := []int{128, 256, 1024, 4096, 1, 100, 124, 0}[(v/2+c.Seed)%8]
 	snd := websocket.VerifNewConn(a, isServer, rbs, cs.Bs, cs.Comp)
 	peer := websocket.VerifNewConn(b, !isServer, rbs, 256, cs.Comp)
 	if cs.Comp {
